@@ -59,6 +59,22 @@ pub mod h_names {
 pub mod h_c14 {
     use super::*;
     harnesses! {
+        #[kani::unwind(14)] text_dots0 => p_text::from_str_dots::<_, 0, false>;
+        #[kani::unwind(14)] text_dots1 => p_text::from_str_dots::<_, 1, false>;
+        #[kani::unwind(14)] text_dots2 => p_text::from_str_dots::<_, 2, false>;
+        #[kani::unwind(14)] text_dots3 => p_text::from_str_dots::<_, 3, false>;
+        #[kani::unwind(14)] text_dots4 => p_text::from_str_dots::<_, 4, false>;
+        #[kani::unwind(14)] text_dots5 => p_text::from_str_dots::<_, 5, false>;
+        #[kani::unwind(14)] text_dots6 => p_text::from_str_dots::<_, 6, false>;
+        #[kani::unwind(14)] text_dots7 => p_text::from_str_dots::<_, 7, false>;
+        #[kani::unwind(14)] text_dots8 => p_text::from_str_dots::<_, 8, false>;
+        #[kani::unwind(14)] text_dots9 => p_text::from_str_dots::<_, 9, false>;
+        #[kani::unwind(14)] text_dots10 => p_text::from_str_dots::<_, 10, false>;
+        #[kani::unwind(14)] text_dots11 => p_text::from_str_dots::<_, 11, false>;
+        #[kani::unwind(16)] text_dots0_zone => p_text::from_str_dots::<_, 0, true>;
+        #[kani::unwind(16)] text_dots4_zone => p_text::from_str_dots::<_, 4, true>;
+        #[kani::unwind(16)] text_dots6_zone => p_text::from_str_dots::<_, 6, true>;
+        #[kani::unwind(16)] text_dots10_zone => p_text::from_str_dots::<_, 10, true>;
         #[kani::unwind(12)] text_l1 => p_text::from_str_len::<_, 1, false>;
         #[kani::unwind(14)] text_ls0 => p_text::from_str_lastsym::<_, 0, false>;
         #[kani::unwind(14)] text_ls2 => p_text::from_str_lastsym::<_, 2, false>;
